@@ -368,9 +368,13 @@ func (lxr *Lexer) quotedString(start int, quote byte) Item {
 	}
 	// have escapes so need to build new string
 	var sb strings.Builder
-	for c := lxr.read(); c != eof && c != quote; c = lxr.read() {
+	c := lxr.read()
+	for ; c != eof && c != quote; c = lxr.read() {
 		c = lxr.doesc(c)
 		sb.WriteByte(byte(c))
+	}
+	if c == eof {
+		return it(tok.Error, start, "missing closing quote")
 	}
 	return Item{Text: sb.String(), Pos: int32(start), Token: tok.String}
 }
